@@ -1,4 +1,5 @@
 import ESRVerif.Model.Shape
+import ESRVerif.Model.ShapePtr
 import ESRVerif.Model.Labeling
 import ESRVerif.Driver.Util
 namespace ESR.Driver.Shape
@@ -22,6 +23,14 @@ def handle : Handler
       | .ok succ part pa le ri =>
         let p := match part with | none => "-" | some p => fmtDigits p
         some s!"{if succ then 1 else 0} {p} {fmtOpt pa} {fmtOpt le} {fmtOpt ri}"
+  | ["ctp", s] => do          -- pointer-level model of check_tree (Model/ShapePtr.lean), same output format as `ct`
+      let s ← digits s
+      match checkTreePtr s with
+      | none => some "fuel"
+      | some .error => some "err"
+      | some (.ok succ part pa le ri) =>
+        let p := match part with | none => "-" | some p => fmtDigits p
+        some s!"{if succ then 1 else 0} {p} {fmtOpt pa} {fmtOpt le} {fmtOpt ri}"
   | ["shapes", n] => do
       let n ← n.toNat?
       let sh := allowedShapes n
@@ -33,6 +42,8 @@ def handle : Handler
       let s ← digits s
       let ts := Labeling.shapeToTrees s ⟨strList b0, strList b1, strList b2⟩
       some (if ts.isEmpty then "-" else ";".intercalate (ts.map fun t => ",".intercalate t))
+  | ["wf", b0, b1, b2] =>     -- does the basis satisfy the hypothesis of `generate_nodup`?
+      some (if (Labeling.Basis.mk (strList b0) (strList b1) (strList b2)).WellFormed then "1" else "0")
   | ["ntrees", n, b0, b1, b2] => do
       let n ← n.toNat?
       some (toString (Labeling.nTrees n ⟨strList b0, strList b1, strList b2⟩))
